@@ -31,6 +31,8 @@ MODULES = {          # alias used in the drivers -> source file (relative to the
     "htm": "esutil/htm/htm.py",
     "recfile": "esutil/recfile/Util.py",
     "sfile": "esutil/sfile.py",
+    "integrate": "esutil/integrate/util.py",
+    "random": "esutil/random.py",
 }
 SUBMODULE_ATTRS = {("recfile", "Util"): "recfile", ("htm", "htm"): "htm", ("stat", "util"): "stat", ("cosmology", "cosmology"): "cosmology"}
 CLASS_ALIASES = {"SFile": ("sfile", "SFile"), "Recfile": ("recfile", "Recfile")}     # names imported directly by the driver prelude
@@ -173,6 +175,19 @@ OUT_OF_SCOPE = {
     "sfile:SFile.dtype": _STATE, "sfile:SFile.get_header": _STATE, "sfile:SFile.get_mode": _STATE, "sfile:SFile.get_filename": _STATE,
     "sfile:SFile.read": _READ, "sfile:SFile.read_header": _STATE, "sfile:read": _READ, "sfile:read_header": _NOARR,
     "sfile:isstring": _NOARR, "sfile:Open": _NOARR,
+    # integrate / random generators (added in the follow-up round on the coordinator's list of families)
+    "integrate:QGauss.setup": _NOARR, "integrate:QGauss.test_gauss_data": "self-test", "integrate:QGauss.test_gauss_func": "self-test",
+    "integrate:QGauss2.__init__": _NOARR, "integrate:QGauss2.gaussfunc": "test integrand of the self-test",
+    "integrate:QGauss2.integrate_func": "takes two (lo, hi) ranges and a function; builds its own grids", "integrate:QGauss2.test_gauss_func": "self-test",
+    "integrate:gauleg": _NOARR,
+    "random:CutGenerator.__init__": "takes a function and a range", "random:CutGenerator.generate_cut_values": _NOARR,
+    "random:CutGenerator.genrand": _NOARR, "random:CutGenerator.test": "self-test",
+    "random:Generator.generate_cut_values": _NOARR, "random:Generator.initialize_func": _STATE, "random:Generator.initialize_points": _STATE,
+    "random:Generator.test": "self-test",
+    **{"random:%s.%s" % (c, m): _STATE for c in ("Normal", "LogNormal")
+       for m in ("get_dist_name", "get_max", "get_max_lnprob", "get_mean", "get_mode", "get_sigma")},
+    "random:Normal.sample": _NOARR, "random:LogNormal.sample": _NOARR,
+    "random:get_dist": "takes a type name and a parameter list", "random:randind": _NOARR, "random:random_indices": _NOARR, "random:srandu": _NOARR,
 }
 
 # parameter lists of the DRIVEN callables at the time the option valuations of the drivers were chosen
@@ -220,6 +235,12 @@ htm:HTM.match = ra1,dec1,ra2,dec2,radius,maxmatch,htmid2,htmrev2,minid,maxid,fil
 htm:Matcher.__init__ = depth,ra,dec
 htm:Matcher.match = ra,dec,radius,maxmatch,file
 htm:gmean = r1,r2,dim
+integrate:QGauss.__init__ = npts
+integrate:QGauss.gaussfunc = xvals
+integrate:QGauss.integrate = xvals,yvals_or_func,npts
+integrate:QGauss.integrate_data = xvals,yvals,npts
+integrate:QGauss.integrate_func = xvals,func,npts
+integrate:qgauss = x,y,npts
 numpy_util:add_fields = arr,add_dtype_or_descr,defaults
 numpy_util:arrscl = arr,minval,maxval,arrmin,arrmax,dtype
 numpy_util:between = arr,lowval,highval,type
@@ -248,6 +269,21 @@ numpy_util:to_little_endian = array,inplace,keep_dtype
 numpy_util:to_native = array,inplace,keep_dtype
 numpy_util:unique = arr,values
 numpy_util:where1 = conditional_expression
+random:CholeskySampler.__init__ = mean,cov,dist
+random:CholeskySampler.sample = n
+random:Generator.__init__ = pofx,x,xrange,nx,method,cumulative,seed,rng
+random:Generator.sample = numrand,**kw
+random:LogNormal.__init__ = mean,sigma
+random:LogNormal.lnprob = x
+random:LogNormal.prob = x
+random:Normal.__init__ = mean,sigma
+random:Normal.lnprob = x
+random:Normal.prob = x
+random:NormalND.__init__ = mean,sigma
+random:NormalND.get_max = 
+random:NormalND.lnprob = pos
+random:NormalND.sample = n
+random:cholesky_sample = cov,n,means,dist
 recfile:Recfile.__init__ = filename,mode,**keys
 recfile:Recfile.close = 
 recfile:Recfile.write = data
@@ -430,6 +466,7 @@ C_SOURCES = {
     "esutil/stat/chist_pywrap.c": ("pywrap", "_chist"),
     "esutil/cosmology/cosmolib_pywrap.c": ("pywrap", "_cosmolib.cosmo"),
     "esutil/htm/htmc.cc": ("cxx", "htmc"),
+    "esutil/integrate/cgauleg_pywrap.c": ("pywrap", "_cgauleg"),
 }
 WRITERS = {"memcpy", "memset", "memmove", "fread", "sscanf", "fscanf", "qsort", "strcpy", "strncpy", "sprintf", "snprintf"}
 READ_ONLY_CALLEES = {
@@ -508,6 +545,10 @@ def scan_function(params, body, style):
     for m in re.finditer(r"(\w+)\s*=\s*(?:\([^()]*\)\s*)*" + _ACC, body):
         ptr.setdefault(m.group(1), set()).add(m.group(2))
     writes, escapes = set(), set()
+    for p_, os_ in ptr.items():
+        for o in os_:
+            if o not in objs and o not in fresh and style == "pywrap":
+                escapes.add("pointer %s is derived from %s, which is neither a parsed argument nor allocated here" % (p_, o))
 
     def hit(obj, what):
         if obj in fresh:
@@ -585,8 +626,6 @@ def c_scan(root):
                 found[key] = sorted(objs[o] for o in writes)
                 for e in sorted(esc):
                     problems.append("%s (%s): %s" % (key, rel, e))
-                if "PyArg_ParseTuple" in body and not objs and re.search(r"PyArray_", body):
-                    problems.append("%s (%s): uses the numpy C API but its argument objects could not be identified" % (key, rel))
             missing = set(table) - {n for n, _, _ in funcs}
             for c in sorted(missing):
                 problems.append("%s: C function %s of the method table has no definition the scanner can find" % (rel, c))
